@@ -20,6 +20,9 @@ type ChannelBind struct {
 	allocation    *Allocation
 	lifetimeTimer *time.Timer
 	log           logging.LeveledLogger
+	// expiresAt is the deadline in force (set by start and refresh, read by the
+	// expiry under the allocation's channelBindingsLock).
+	expiresAt time.Time
 }
 
 // NewChannelBind creates a new ChannelBind.
@@ -32,14 +35,14 @@ func NewChannelBind(number proto.ChannelNumber, peer net.Addr, log logging.Level
 }
 
 func (c *ChannelBind) start(lifetime time.Duration) {
+	c.expiresAt = time.Now().Add(lifetime)
 	c.lifetimeTimer = time.AfterFunc(lifetime, func() {
-		if !c.allocation.RemoveChannelBind(c.Number) {
-			c.log.Errorf("Failed to remove ChannelBind for %v %x %v", c.Number, c.Peer, c.allocation.fiveTuple)
-		}
+		c.allocation.expireChannelBind(c)
 	})
 }
 
 func (c *ChannelBind) refresh(lifetime time.Duration) {
+	c.expiresAt = time.Now().Add(lifetime)
 	if !c.lifetimeTimer.Reset(lifetime) {
 		c.log.Errorf("Failed to reset ChannelBind timer for %v %x %v", c.Number, c.Peer, c.allocation.fiveTuple)
 	}
